@@ -833,6 +833,57 @@ pub fn c09(cfg: &Value) {
     }
 }
 
+/// C09 / "the writer notices that no appender is left": the last queue handle appends one more
+/// entry and goes away while the writer is inside its periodic stream flush (from the stream's
+/// flush callback, so the window is hit deterministically); the join handle stays alive. That
+/// entry was displaced by nothing: it must reach the stream, and the overflow counter stays 0.
+pub fn c09_last_handle_in_flush(cfg: &Value) {
+    let horizon = cfg["horizon"].as_u64().unwrap_or(3);
+    let (mut stream, log) = RecStream::new(BTreeMap::new());
+    let slot: std::sync::Arc<std::sync::Mutex<Option<Q>>> = Default::default();
+    {
+        let slot = slot.clone();
+        stream.on_flush = Some(Box::new(move |_idx| {
+            // (the handle is moved out of the slot: no scheduler-visible step under the std mutex)
+            let q = slot.lock().unwrap_or_else(|e| e.into_inner()).take();
+            if let Some(q) = q {
+                q.append(Tag { p: 1, seq: 0 });
+                drop(q);
+            }
+        }));
+    }
+    let (rec, counts) = CountingRecorder::new();
+    let (q, handle) = BackgroundQueueBuilder::new()
+        .capacity(8)
+        .metrics_recorder_local::<dyn metrics_024::Recorder, _>(rec)
+        .build::<TaggedEntry>(stream);
+    let q = Q::Typed(q);
+    q.append(Tag { p: 0, seq: 0 });
+    *slot.lock().unwrap_or_else(|e| e.into_inner()) = Some(q);
+    let closed = |log: &Log| log.lock().unwrap_or_else(|e| e.into_inner()).last() == Some(&Ev::Dropped);
+    let mut rounds = 0;
+    while !closed(&log) && rounds < horizon {
+        let l = log.clone();
+        vtime::advance_when_idle(Duration::from_millis(1100), move || l.lock().unwrap_or_else(|e| e.into_inner()).last() == Some(&Ev::Dropped));
+        rounds += 1;
+        let l = log.clone();
+        vtime::advance_when_idle(Duration::ZERO, move || l.lock().unwrap_or_else(|e| e.into_inner()).last() == Some(&Ev::Dropped));
+    }
+    drop(handle);
+    let end = log.lock().unwrap_or_else(|e| e.into_inner()).clone();
+    mc::outcome(format!("rounds={rounds} {}", log_string(&end)));
+    let logged = tags_in(&end);
+    for t in [Tag { p: 0, seq: 0 }, Tag { p: 1, seq: 0 }] {
+        if !logged.contains(&t) {
+            mc::violation("lost-without-enough-newer-entries", format!("entry {t} never reached the stream although the queue (capacity 8) held at most 2 entries; the last queue handle went away while the writer flushed the stream: {}", log_string(&end)));
+        }
+    }
+    let overflows = counts.lock().unwrap_or_else(|e| e.into_inner()).get("metrique_queue_overflows").copied().unwrap_or(0);
+    if overflows != 0 {
+        mc::violation("overflow-counter", format!("metrique_queue_overflows = {overflows} but nothing was displaced: {}", log_string(&end)));
+    }
+}
+
 /// C01, several queues in one process: the queues' writer threads share process-global state
 /// (the rate limiters behind the error reports). Each queue gets entries for which its stream
 /// returns the scripted result; every entry of every queue must still reach its stream exactly
